@@ -76,14 +76,18 @@ fn cmd_one(args: &[String]) -> i32 {
     let seed = verif_seed(args);
     let index: u64 = arg(args, "--index").and_then(|s| s.parse().ok()).unwrap_or(0);
     let quiet = args.iter().any(|a| a == "--quiet");
-    let (sc, _cfg, rr) = lanes::execute(&lane, seed, index);
+    let case: usize = arg(args, "--case").and_then(|s| s.parse().ok()).unwrap_or(0);
+    let (sc, _cfg, rr) = lanes::execute_case(&lane, seed, index, case);
     let vs = (lane.check)(&sc, &rr);
     if !quiet {
         if args.iter().any(|a| a == "--scenario") {
             println!("{}", serde_json::to_string_pretty(&sc).unwrap());
         }
+        let all = args.iter().any(|a| a == "--all");
         for l in batch::history_lines(&rr) {
-            println!("{l}");
+            if all || !l.contains("NetDeliver") {
+                println!("{l}");
+            }
         }
         println!("verdict={:?} steps={} hist_hash={:016x} draws={}", rr.verdict, rr.steps, rr.hist_hash, rr.trace.len());
         for v in &vs {
@@ -123,7 +127,7 @@ fn cmd_replay(args: &[String]) -> i32 {
             eprintln!("harness error: no lane");
             return 2;
         };
-        let v = batch::confirm_process_failure(&lane, rep.verif_seed, rep.index, "replay");
+        let v = batch::confirm_process_failure(&lane, rep.verif_seed, rep.index, rep.case, "replay");
         if v.iter().any(|r| r.violation.signature == rep.signature) {
             println!("VIOLATION property={} replay={}", rep.property, path);
             return 1;
@@ -201,6 +205,7 @@ fn cmd_check(args: &[String]) -> i32 {
         eprintln!("harness error: property {prop} has no check");
         return 2;
     }
+    std::env::set_var("LDAPSIM_TIER", tier);
     println!("VERIF_SEED={seed} property={prop} tier={tier} workers={workers}");
     let t0 = Instant::now();
     let known = batch::load_known();
